@@ -10,3 +10,8 @@ open MdVerif.InstanceX
 #print axioms C11X_untracked_is_ood
 #print axioms C11X_tracked_iff_ok
 #print axioms C11X_no_reset_leak
+#print axioms C11X_tables_grow
+#print axioms C11X_tables_grow_history
+#print axioms C11X_references_persist
+#print axioms C11X_block_tree_no_leak
+#print axioms C11X_block_tree_fresh
